@@ -5,4 +5,5 @@ cd /repo && git apply --check $d/patch.diff || { echo "PATCH DOES NOT APPLY: $d"
 git -C /repo apply $d/patch.diff
 cd /verif && ./vf check $p "$@" > /tmp/seeded-$p.out 2>&1; rc=$?
 git -C /repo checkout -- .
+(cd /verif/sim && cargo build --offline >/dev/null 2>&1)
 echo "$p rc=$rc"; grep -E "^VIOLATION|^  key=|^OK|HARNESS" /tmp/seeded-$p.out | head -8
